@@ -214,7 +214,12 @@ func runDefects(tier string, seed int64, langs []int) {
 		L := int64(lang)
 		// wrong counts 0..30, made of list words (count is the only possible defect when not in {12..24 step 3};
 		// for accepted counts the words are taken from a valid sentence, so there is no defect at all)
-		for n := 0; n <= 30; n++ {
+		counts := []int{}
+		for n := 0; n <= 40; n++ {
+			counts = append(counts, n)
+		}
+		counts = append(counts, 47, 48, 49, 63, 64, 96, 100, 127, 128, 255, 256, 257, 1000)
+		for _, n := range counts {
 			maybeCut()
 			var s string
 			if n%3 == 0 && n >= 12 && n <= 24 {
